@@ -3,32 +3,42 @@ C08 — pruning preserves commitment and behaviour and satisfies anti-DoS.
 
 Three layers, and which theorem is about which:
 
-(P) **plan level** — the executable functions the driver's `prune` verb runs (`PrunePlan.lean`):
-    `evalT` (tracker), `pruneNode`/`prunePlan` (the `prune_case` table), `Prog.cmrNode`/`cmrs`,
-    `constraintsM`/`inferM` (re-inference), `pruneV` (`Value::prune`).  Theorems `cmr_prune`,
-    `cmr_prune_plan`, `tracker_is_eval`, `types_shrink`, `reinference_succeeds`,
-    `witness_prune_defined`, `prune_table_idempotent` are full statements about these functions.
+(P) **plan level** — the executable functions behind the driver's `prune` verb (`PrunePlan.lean`,
+    `PrunePipeline.lean`): `evalT` (tracker), `pruneNode`/`prunePlan` (the `prune_case` table),
+    `Prog.cmrNode`/`cmrs`, `constraintsM`/`inferM` (re-inference), `reachable`, `pruneV`/`pruneWit`
+    (`Value::prune`), `antiDosOK`, and the whole pipeline `prunePipeline` / `Pruned.antiDos`.
+    Full statements about these functions:
+    * `cmr_prune`, `cmr_prune_plan`, `tracker_is_eval`, `types_shrink`, `reinference_succeeds`,
+      `witness_prune_defined`, `prune_table_idempotent`;
+    * **the re-typed pruned program** (`PruneRetype.lean` …): `eval_prune_retyping` — the pruned plan
+      elaborated with its RE-INFERRED arrows and `pruneWit`-pruned witnesses maps the pruned input to
+      the pruned output and leaves the same tracker record; `antiDoS_plan`/`antiDoS_driver` — on that
+      run every reachable node is executed and every remaining case takes both sides, `disconnect`
+      included, when the identities of the first run are pairwise distinct on the plan;
+      `prune_idempotent_plan`/`prune_idempotent_reachable` — pruning again for the same run leaves the
+      pruned program, its reachable set, its re-inferred arrows and its witness bits as they are;
+      `pipeline_antiDos` — all of it for `prunePipeline`/`Pruned.antiDos` themselves.
 (T) **typed-term level** — `Prog.pruneTerm` on the intrinsically typed terms the driver evaluates
     (every node kind, `disconnect` included), types kept: `eval_prune_pruner_step` (same output, same
     tracker record, pruning again changes nothing).  Connected to the plan level by
     `plan_pruning_is_term_pruning` (`PruneBridge.lean`: elaborating the pruned plan with the arrows of
     the original plan gives `pruneTerm` of the original term), whence the plan-level statement
-    `eval_prune_plan_original_types`.  What is *not* proved is the other step: that the pruned plan
-    elaborated with its *re-inferred* arrows and pruned witnesses behaves the same (see (A)).
-(A) **abstract models** — `Prune.lean` (`ShrinkOn`, `eval_shrink`: re-typing with shrunken types and
-    pruned witnesses keeps the behaviour) and `PruneTrace.lean` (identity-labelled skeletons without
-    `disconnect`: `prune_spec`, `antiDoS`).  Restated here as `…_partial`: the relation between the
-    plan-level pipeline and these models (that the re-typed pruned plan elaborates to a term
-    `ShrinkOn`-related to the original; that the skeleton of a plan satisfies `IdsFaithful`, i.e.
-    identity roots do not collide) is not proved — it is sampled: on every generated case the
-    model's own run of its pruned plan must succeed and must satisfy the anti-DoS conditions, and
-    must agree with what libsimplicity says about the Rust-pruned program.
+    `eval_prune_plan_original_types`.
+(A) **abstract models** — `Prune.lean` (`ShrinkOn`, `eval_shrink`) and `PruneTrace.lean`
+    (identity-labelled skeletons without `disconnect`: `prune_spec`, `antiDoS` under `IdsFaithful`).
+    Kept, still named `…_partial` because they are not about the plan-level functions; each is now
+    accompanied by a full plan-level theorem (see their comments for what the plan-level theorem
+    does *not* cover: plans in which two different nodes carry the same identity root).
 -/
 import SimplicityModel.PrunePlanProps
 import SimplicityModel.PruneTerm
 import SimplicityModel.PruneBridge
 import SimplicityModel.Prune
 import SimplicityModel.PruneTrace
+import SimplicityModel.PruneRetypeThm
+import SimplicityModel.PruneAntiDos
+import SimplicityModel.PruneThms
+import SimplicityModel.PrunePipelineThm
 
 namespace Props.C08
 open BM4 Prog
@@ -89,7 +99,7 @@ theorem reinference_succeeds (jt : JetTypes) (S : List (Nat × Bool)) (ids : Nat
 /-- **Witness pruning cannot panic** (the `expect("pruned type should be shrunken version of
 unpruned type")` of the code): a witness value of its node's original target type is pruned
 successfully to the node's re-inferred target type; the result has exactly that type and is the
-value `pr` that the behavioural theorem `eval_prune_retyping_partial` speaks about. -/
+value `pr` that the behavioural theorem `eval_prune_retyping` speaks about. -/
 theorem witness_prune_defined (jt : JetTypes) (S : List (Nat × Bool)) (ids : Nat → Nat) (cm : Nat → Nat)
     (p : Plan) (mask : Nat → Bool) (prog : Bool) {arr arr' : Array (Ty × Ty)}
     (h : inferM jt p (fun _ => true) prog = .ok arr)
@@ -136,6 +146,288 @@ example : ∃ es S es' S',
     tyOfInf (Inf.closeUnit S 5) = .sum .one .one ∧ tyOfInf (Inf.closeUnit S' 5) = .one :=
   ⟨_, _, _, _, rfl, rfl, rfl, rfl, rfl, rfl⟩
 
+/-! ## (P) plan level: the re-typed pruned program -/
+
+/-- **Same behaviour after re-typing, plan level** (the functions the driver runs).
+
+Let `p` be a plan whose children precede their parents (`wf`), `arr` the arrows inferred for it
+(`inferM`, all nodes), `x` the term node `i` elaborates to (`elabNode`, any witness bits `wit`, root
+table `cm`, jet semantics `jets`), and suppose its run on a well-typed input `v`, labelled by the
+identities `ids`, succeeds with output `o` and tracker record `tr`.  Let `S` be any tracker content
+that covers `tr.sides` (in use `S = tr.sides`), `p1 = prunePlan S ids cmf p` the pruned plan, `mask` a
+set of nodes of the plan that contains `i` and is closed under the children *of the pruned plan* (in
+use: the `reachable` nodes), `a1` the arrows **re-inferred** for `p1` restricted to `mask`, and `wit'`
+witness bits that agree with `pruneWit` (decode at the old type, `pruneV` to the new type, encode) on
+the selected witness nodes.  Then node `i` of `p1` elaborates with `a1` and `wit'` to a term `t'` at
+the re-inferred arrow `a1[i]`, and `t'` maps the pruned input to the pruned output:
+`evalK t' (pr a' v) = ok (pr b' o)`.  Moreover the tracker record of that run — under any labelling
+`ids'`, e.g. the identity roots of the pruned program — is the record of the original run, read in
+plan indices (`trI`) and relabelled by `ids'`. -/
+theorem eval_prune_retyping (jt : JetTypes) (p : Plan) (wit : Nat → Option (List Bool)) (cm : Array Nat)
+    (jets : JetSem) (S : List (Nat × Bool)) (ids ids' : Nat → Nat) (cmf : Nat → Nat) (mask : Nat → Bool)
+    (prog : Bool) {arr a1 : Array (Ty × Ty)} (wit' : Nat → Option (List Bool))
+    (hwf : wf p = true)
+    (harr : inferM jt p (fun _ => true) prog = .ok arr)
+    (ha1 : inferM jt (prunePlan S ids cmf p) mask prog = .ok a1)
+    (hlt : ∀ j, mask j = true → j < p.size)
+    (hclosed : ∀ j nd', mask j = true → (prunePlan S ids cmf p)[j]? = some nd' →
+      ∀ c ∈ nd'.children, mask c = true)
+    (hwit : ∀ j bits, mask j = true → p[j]? = some .witness → pruneWit wit arr a1 j = some bits →
+      wit' j = some bits)
+    (f i : Nat) (hmi : mask i = true) (x : Σ a b, Term a b)
+    (hx : elabNode { plan := p, arrows := arr, wit := wit, cmr := cm, jets := jets } f i = some x)
+    (v o : Val) (tr : Trace) (hv : HasTy v x.1)
+    (hrun : evalT x.2.2 (labOf p ids f i) v = .ok (o, tr))
+    (hS : ∀ s ∈ tr.sides, s ∈ S) :
+    ∃ (t' : Term (a1.getD i (.one, .one)).1 (a1.getD i (.one, .one)).2) (trI : Trace),
+      elabNode { plan := prunePlan S ids cmf p, arrows := a1, wit := wit', cmr := cm, jets := jets } f i
+        = some ⟨_, _, t'⟩ ∧
+      evalK t' (pr (a1.getD i (.one, .one)).1 v) = .ok (pr (a1.getD i (.one, .one)).2 o) ∧
+      tr = trI.map ids ∧
+      evalT t' (labOf (prunePlan S ids cmf p) ids' f i) (pr (a1.getD i (.one, .one)).1 v)
+        = .ok (pr (a1.getD i (.one, .one)).2 o, trI.map ids') := by
+  obtain ⟨t', trI, h1, h2, _, h3, _⟩ := eval_retyped_prune jt p wit cm jets S ids ids' cmf mask prog wit'
+    hwf harr ha1 hlt hclosed hwit f i hmi x hx v o tr hv hrun hS
+  refine ⟨t', trI, h1, ?_, h2, h3⟩
+  have := evalT_fst t' (labOf (prunePlan S ids cmf p) ids' f i) (pr (a1.getD i (.one, .one)).1 v)
+  rw [h3] at this
+  exact this.symm
+
+/-- the same with the driver's selection: the nodes `reachable` in the pruned plan (contains the
+root, is closed under children — `reachable_root`, `reachable_closed`), the tracker's own record,
+the root node of a non-empty plan.  With `cmrs_prunePlan` (the root table of the pruned plan is
+the root table of the plan) this is every ingredient of `Drv.C08.prunePipeline`/`antiDos`. -/
+theorem eval_prune_retyping_reachable (jt : JetTypes) (p : Plan) (wit : Nat → Option (List Bool))
+    (cm : Array Nat) (jets : JetSem) (ids ids' : Nat → Nat) (cmf : Nat → Nat) (prog : Bool)
+    {arr a1 : Array (Ty × Ty)} (wit' : Nat → Option (List Bool)) (hwf : wf p = true) (hp : 0 < p.size)
+    (harr : inferM jt p (fun _ => true) prog = .ok arr)
+    (f : Nat) (x : Σ a b, Term a b)
+    (hx : elabNode { plan := p, arrows := arr, wit := wit, cmr := cm, jets := jets } f (p.size - 1) = some x)
+    (v o : Val) (tr : Trace) (hv : HasTy v x.1)
+    (hrun : evalT x.2.2 (labOf p ids f (p.size - 1)) v = .ok (o, tr))
+    (ha1 : inferM jt (prunePlan tr.sides ids cmf p)
+      (fun j => (reachable (prunePlan tr.sides ids cmf p)).getD j false) prog = .ok a1)
+    (hwit : ∀ j bits, (reachable (prunePlan tr.sides ids cmf p)).getD j false = true → p[j]? = some .witness →
+      pruneWit wit arr a1 j = some bits → wit' j = some bits) :
+    ∃ (t' : Term (a1.getD (p.size - 1) (.one, .one)).1 (a1.getD (p.size - 1) (.one, .one)).2),
+      elabNode { plan := prunePlan tr.sides ids cmf p, arrows := a1, wit := wit', cmr := cm, jets := jets } f
+        (p.size - 1) = some ⟨_, _, t'⟩ ∧
+      evalK t' (pr (a1.getD (p.size - 1) (.one, .one)).1 v) = .ok (pr (a1.getD (p.size - 1) (.one, .one)).2 o) := by
+  have hwf1 := wf_prunePlan tr.sides ids cmf p hwf
+  have hsz := prunePlan_size tr.sides ids cmf p
+  obtain ⟨t', _, h1, h2, _, _⟩ := eval_prune_retyping jt p wit cm jets tr.sides ids ids' cmf _ prog wit' hwf harr ha1
+    (fun j hj => by have := reachable_lt _ hj; rwa [hsz] at this)
+    (fun j nd' hj hnd' => reachable_closed _ hwf1 hj hnd')
+    hwit f (p.size - 1)
+    (by have := reachable_root (prunePlan tr.sides ids cmf p) (by rw [hsz]; exact hp); rwa [hsz] at this)
+    x hx v o tr hv hrun (fun _ hs => hs)
+  exact ⟨t', h1, h2⟩
+
+/-! non-vacuity of `eval_prune_retyping`: `comp (pair wit iden) (case unit (take (case unit unit)))`,
+the witness `inl ()` of type `1 + (2 × 1)` selects the left branch; pruning turns node 7 into
+`assertl`, nodes 4, 5, 6 become unreachable, the witness is re-typed to `1 + 1 = 2`. -/
+section Example
+def exPlan : Plan := #[.witness, .iden, .pair 0 1, .unit, .unit, .case 4 4, .take 5, .case 3 6, .comp 2 7]
+def exWit : Nat → Option (List Bool) := fun i => if i = 0 then some [false] else none
+def exT0 : Ty := .sum .one (.prod (.sum .one .one) .one)
+def exArr : Array (Ty × Ty) :=
+  #[(.one, exT0), (.one, .one), (.one, .prod exT0 .one), (.prod .one .one, .one), (.prod .one .one, .one),
+    (.prod (.sum .one .one) .one, .one), (.prod (.prod (.sum .one .one) .one) .one, .one),
+    (.prod exT0 .one, .one), (.one, .one)]
+def exArr1 : Array (Ty × Ty) :=
+  #[(.one, .sum .one .one), (.one, .one), (.one, .prod (.sum .one .one) .one), (.prod .one .one, .one),
+    (.one, .one), (.one, .one), (.one, .one), (.prod (.sum .one .one) .one, .one), (.one, .one)]
+def exPlan1 : Plan := prunePlan [(7, false)] (fun j => j) (fun _ => 0) exPlan
+
+theorem ex_infer : inferM (fun _ => none) exPlan (fun _ => true) true = .ok exArr := by
+  have : ∃ es S, constraintsM (fun _ => none) exPlan (fun _ => true) true = some es ∧
+      Inf.unify unifyFuel es [] = .ok S ∧ arrowsOf 9 (Inf.closeUnit S) = exArr :=
+    ⟨_, _, rfl, rfl, by decide +kernel⟩
+  obtain ⟨es, S, h1, h2, h3⟩ := this
+  simp only [inferM, h1, h2]
+  exact congrArg _ h3
+
+theorem ex_infer1 :
+    inferM (fun _ => none) exPlan1 (fun j => (reachable exPlan1).getD j false) true = .ok exArr1 := by
+  have : ∃ es S, constraintsM (fun _ => none) exPlan1 (fun j => (reachable exPlan1).getD j false) true = some es ∧
+      Inf.unify unifyFuel es [] = .ok S ∧ arrowsOf 9 (Inf.closeUnit S) = exArr1 :=
+    ⟨_, _, rfl, rfl, by decide +kernel⟩
+  obtain ⟨es, S, h1, h2, h3⟩ := this
+  simp only [inferM, h1, h2]
+  exact congrArg _ h3
+
+/-- the hypotheses of `eval_prune_retyping_reachable` on this input: typable, elaborates, runs to
+`()` taking the left side of node 7 only; the pruned plan has `assertl` at 7 and re-infers; the
+witness type shrinks strictly and the pruned witness bits exist -/
+example : wf exPlan = true ∧
+    inferM (fun _ => none) exPlan (fun _ => true) true = .ok exArr ∧
+    (∃ (t : Term .one .one) (tr : Trace),
+      elabNode { plan := exPlan, arrows := exArr, wit := exWit, cmr := #[], jets := fun _ _ => none } 10 8
+        = some ⟨.one, .one, t⟩ ∧
+      evalT t (labOf exPlan (fun j => j) 10 8) .unit = .ok (.unit, tr) ∧ tr.sides = [(7, false)]) ∧
+    exPlan1 = #[.witness, .iden, .pair 0 1, .unit, .unit, .case 4 4, .take 5, .assertl 3 0, .comp 2 7] ∧
+    inferM (fun _ => none) exPlan1 (fun j => (reachable exPlan1).getD j false) true = .ok exArr1 ∧
+    pruneWit exWit exArr exArr1 0 = some [false] ∧
+    (exArr.getD 0 (.one, .one)).2 = .sum .one (.prod (.sum .one .one) .one) ∧
+    (exArr1.getD 0 (.one, .one)).2 = .sum .one .one :=
+  ⟨rfl, ex_infer, ⟨_, _, rfl, rfl, rfl⟩, rfl, ex_infer1, rfl, rfl, rfl⟩
+end Example
+
+/-! ## (P) plan level: anti-DoS and idempotence of the re-typed pruned program -/
+
+/-- **Anti-DoS, plan level** (`disconnect` included; identities need only be pairwise distinct).
+
+Hypotheses of `eval_prune_retyping` with `S = tr.sides` (the tracker's own record), the node
+selection `mask` consisting of nodes reachable from `i` in the pruned plan `p1` (in use: exactly the
+`reachable` ones), and the identities `ids` the first run was labelled with **pairwise distinct on
+the plan** — what the decoder guarantees for identity roots.  Then the run of the re-typed pruned
+program (node `i` of `p1` with arrows `a1`, witnesses `wit'`, labelled by *any* `ids'`, e.g. the
+identity roots of the pruned program) leaves a record `tr2` in which every selected node is executed
+and every selected node that is still a `case` has both sides taken: libsimplicity's conditions. -/
+theorem antiDoS_plan (jt : JetTypes) (p : Plan) (wit : Nat → Option (List Bool)) (cm : Array Nat)
+    (jets : JetSem) (ids ids' : Nat → Nat) (cmf : Nat → Nat) (mask : Nat → Bool)
+    (prog : Bool) {arr a1 : Array (Ty × Ty)} (wit' : Nat → Option (List Bool))
+    (hwf : wf p = true)
+    (harr : inferM jt p (fun _ => true) prog = .ok arr)
+    (f i : Nat) (x : Σ a b, Term a b)
+    (hx : elabNode { plan := p, arrows := arr, wit := wit, cmr := cm, jets := jets } f i = some x)
+    (v o : Val) (tr : Trace) (hv : HasTy v x.1)
+    (hrun : evalT x.2.2 (labOf p ids f i) v = .ok (o, tr))
+    (ha1 : inferM jt (prunePlan tr.sides ids cmf p) mask prog = .ok a1)
+    (hlt : ∀ j, mask j = true → j < p.size)
+    (hclosed : ∀ j nd', mask j = true → (prunePlan tr.sides ids cmf p)[j]? = some nd' →
+      ∀ c ∈ nd'.children, mask c = true)
+    (hwit : ∀ j bits, mask j = true → p[j]? = some .witness → pruneWit wit arr a1 j = some bits →
+      wit' j = some bits)
+    (hmi : mask i = true)
+    (hreach : ∀ j, mask j = true → Reach (prunePlan tr.sides ids cmf p) i j)
+    (hinj : ∀ j k, j < p.size → k < p.size → ids j = ids k → j = k) :
+    ∃ (t' : Term (a1.getD i (.one, .one)).1 (a1.getD i (.one, .one)).2) (tr2 : Trace),
+      elabNode { plan := prunePlan tr.sides ids cmf p, arrows := a1, wit := wit', cmr := cm, jets := jets } f i
+        = some ⟨_, _, t'⟩ ∧
+      evalT t' (labOf (prunePlan tr.sides ids cmf p) ids' f i) (pr (a1.getD i (.one, .one)).1 v)
+        = .ok (pr (a1.getD i (.one, .one)).2 o, tr2) ∧
+      ∀ j, mask j = true → ids' j ∈ tr2.nodes ∧
+        ∀ a b, (prunePlan tr.sides ids cmf p)[j]? = some (.case a b) →
+          (ids' j, false) ∈ tr2.sides ∧ (ids' j, true) ∈ tr2.sides :=
+  Prog.antiDoS_plan jt p wit cm jets ids ids' cmf mask prog wit' hwf harr f i x hx v o tr hv hrun ha1 hlt hclosed hwit hmi hreach hinj
+
+/-- **Anti-DoS, as the driver evaluates it**: the root of a non-empty plan, the `reachable` nodes
+of the pruned plan, any labelling `ids'` of the second run: `antiDosOK` (the function behind the
+driver's `antidos=` field) answers `true` on the record of the re-typed pruned program. -/
+theorem antiDoS_driver (jt : JetTypes) (p : Plan) (wit : Nat → Option (List Bool)) (cm : Array Nat)
+    (jets : JetSem) (ids ids' : Nat → Nat) (cmf : Nat → Nat)
+    (prog : Bool) {arr a1 : Array (Ty × Ty)} (wit' : Nat → Option (List Bool))
+    (hwf : wf p = true) (hp : 0 < p.size)
+    (harr : inferM jt p (fun _ => true) prog = .ok arr)
+    (f : Nat) (x : Σ a b, Term a b)
+    (hx : elabNode { plan := p, arrows := arr, wit := wit, cmr := cm, jets := jets } f (p.size - 1) = some x)
+    (v o : Val) (tr : Trace) (hv : HasTy v x.1)
+    (hrun : evalT x.2.2 (labOf p ids f (p.size - 1)) v = .ok (o, tr))
+    (ha1 : inferM jt (prunePlan tr.sides ids cmf p)
+      (fun j => (reachable (prunePlan tr.sides ids cmf p)).getD j false) prog = .ok a1)
+    (hwit : ∀ j bits, (reachable (prunePlan tr.sides ids cmf p)).getD j false = true → p[j]? = some .witness →
+      pruneWit wit arr a1 j = some bits → wit' j = some bits)
+    (hinj : ∀ j k, j < p.size → k < p.size → ids j = ids k → j = k) :
+    ∃ (t' : Term (a1.getD (p.size - 1) (.one, .one)).1 (a1.getD (p.size - 1) (.one, .one)).2) (tr2 : Trace),
+      elabNode { plan := prunePlan tr.sides ids cmf p, arrows := a1, wit := wit', cmr := cm, jets := jets } f
+        (p.size - 1) = some ⟨_, _, t'⟩ ∧
+      evalT t' (labOf (prunePlan tr.sides ids cmf p) ids' f (p.size - 1))
+        (pr (a1.getD (p.size - 1) (.one, .one)).1 v) = .ok (pr (a1.getD (p.size - 1) (.one, .one)).2 o, tr2) ∧
+      antiDosOK (prunePlan tr.sides ids cmf p) (reachable (prunePlan tr.sides ids cmf p)) ids' tr2 = true :=
+  Prog.antiDoS_driver jt p wit cm jets ids ids' cmf prog wit' hwf hp harr f x hx v o tr hv hrun ha1 hwit hinj
+
+/-- **Idempotence, plan level, types included.**  Under the hypotheses of `antiDoS_plan`, prune
+the pruned program again *for the same run*: take the record `tr2` of the re-typed pruned program
+(labelled by any `ids'`, hidden roots from any `cmf'`).  Then (1) the `prune_case` table leaves every
+selected node of the pruned plan as it is, (2) re-inference on the twice-pruned plan returns the
+same arrows `a1`, (3) pruning the already pruned witness bits to `a1` again returns them.  (Nodes
+outside the selection are not part of the pruned program; the table may rewrite them, which does
+not influence the selected nodes' types — `inferM_prunePlan_agree`.) -/
+theorem prune_idempotent_plan (jt : JetTypes) (p : Plan) (wit : Nat → Option (List Bool)) (cm : Array Nat)
+    (jets : JetSem) (ids ids' : Nat → Nat) (cmf cmf' : Nat → Nat) (mask : Nat → Bool)
+    (prog : Bool) {arr a1 : Array (Ty × Ty)} (wit' : Nat → Option (List Bool))
+    (hwf : wf p = true)
+    (harr : inferM jt p (fun _ => true) prog = .ok arr)
+    (f i : Nat) (x : Σ a b, Term a b)
+    (hx : elabNode { plan := p, arrows := arr, wit := wit, cmr := cm, jets := jets } f i = some x)
+    (v o : Val) (tr : Trace) (hv : HasTy v x.1)
+    (hrun : evalT x.2.2 (labOf p ids f i) v = .ok (o, tr))
+    (ha1 : inferM jt (prunePlan tr.sides ids cmf p) mask prog = .ok a1)
+    (hlt : ∀ j, mask j = true → j < p.size)
+    (hclosed : ∀ j nd', mask j = true → (prunePlan tr.sides ids cmf p)[j]? = some nd' →
+      ∀ c ∈ nd'.children, mask c = true)
+    (hwit : ∀ j bits, mask j = true → p[j]? = some .witness → pruneWit wit arr a1 j = some bits →
+      wit' j = some bits)
+    (hmi : mask i = true)
+    (hreach : ∀ j, mask j = true → Reach (prunePlan tr.sides ids cmf p) i j)
+    (hinj : ∀ j k, j < p.size → k < p.size → ids j = ids k → j = k) :
+    ∃ (t' : Term (a1.getD i (.one, .one)).1 (a1.getD i (.one, .one)).2) (tr2 : Trace),
+      elabNode { plan := prunePlan tr.sides ids cmf p, arrows := a1, wit := wit', cmr := cm, jets := jets } f i
+        = some ⟨_, _, t'⟩ ∧
+      evalT t' (labOf (prunePlan tr.sides ids cmf p) ids' f i) (pr (a1.getD i (.one, .one)).1 v)
+        = .ok (pr (a1.getD i (.one, .one)).2 o, tr2) ∧
+      (∀ j, mask j = true →
+        (prunePlan tr2.sides ids' cmf' (prunePlan tr.sides ids cmf p))[j]? = (prunePlan tr.sides ids cmf p)[j]?) ∧
+      inferM jt (prunePlan tr2.sides ids' cmf' (prunePlan tr.sides ids cmf p)) mask prog = .ok a1 ∧
+      (∀ j bits, mask j = true → p[j]? = some .witness → pruneWit wit arr a1 j = some bits →
+        pruneWit wit' a1 a1 j = some bits) :=
+  Prog.prune_idempotent_plan jt p wit cm jets ids ids' cmf cmf' mask prog wit' hwf harr f i x hx v o tr hv hrun ha1 hlt hclosed hwit hmi hreach hinj
+
+/-- … and the reachable set does not change either: with the driver's selection (`reachable`),
+the twice-pruned plan has the reachable set of the pruned plan, so the second `inferM` runs on the
+same selection. -/
+theorem prune_idempotent_reachable (p1 : Plan) (S2 : List (Nat × Bool)) (ids' cmf' : Nat → Nat)
+    (h : ∀ j, (reachable p1).getD j false = true → (prunePlan S2 ids' cmf' p1)[j]? = p1[j]?) (hwf : wf p1 = true) :
+    reachable (prunePlan S2 ids' cmf' p1) = reachable p1 :=
+  Prog.prune_idempotent_reachable p1 S2 ids' cmf' h hwf
+
+/-- **End to end, on the two functions behind the driver's `prune` verb.**  If `prunePipeline`
+(types, roots, identity roots, elaboration, tracked run, `prune_case` table, reachability,
+re-inference, witness pruning) answers `ok q` and the identity roots it labelled the first run with
+are pairwise distinct on the plan, then `q.antiDos` — which elaborates the pruned plan with its **re-inferred** arrows and pruned witness
+bits, runs it and evaluates the anti-DoS conditions at identity-root granularity — answers `"ok"`:
+the re-typed pruned program elaborates, its run does not fail, every reachable node is executed and
+both sides of every remaining case are taken.  (No concrete instance is given in Lean because the
+hypotheses contain SHA-256 computations (`cmrs`, `ihrs`); every `ok … antidos=ok` line of the
+correspondence run is an instance.) -/
+theorem pipeline_antiDos (jetTy : JetTypes) (jetCmr : String → Option Nat) (jetSem : JetSem)
+    (wit : Nat → Option (List Bool)) (p : Plan) (q : Pruned)
+    (h : prunePipeline jetTy jetCmr jetSem wit p = .ok q)
+    (hinj : ∀ arrows an, inferM jetTy p (fun _ => true) true = .ok arrows → ihrs jetCmr p arrows wit = some an →
+      ∀ j k, j < p.size → k < p.size → (an.getD j (0, 0)).2 = (an.getD k (0, 0)).2 → j = k) :
+    q.antiDos jetCmr jetSem wit = "ok" :=
+  Prog.pipeline_antiDos jetTy jetCmr jetSem wit p q h hinj
+
+/-- non-vacuity of `antiDoS_driver` / `prune_idempotent_plan`: their hypotheses hold on the example
+program above (identities = plan indices, pairwise distinct; second run labelled `j ↦ j + 100`) -/
+example : (∃ tr2 : Trace, antiDosOK exPlan1 (reachable exPlan1) (fun j => j + 100) tr2 = true) ∧
+    (∃ tr2 : Trace, inferM (fun _ => none) (prunePlan tr2.sides (fun j => j + 100) (fun _ => 1) exPlan1)
+      (fun j => (reachable exPlan1).getD j false) true = .ok exArr1) := by
+  obtain ⟨t, tr, hx, hrun, hs⟩ : ∃ (t : Term .one .one) (tr : Trace),
+      elabNode { plan := exPlan, arrows := exArr, wit := exWit, cmr := #[], jets := fun _ _ => none } 10 8
+        = some ⟨.one, .one, t⟩ ∧
+      evalT t (labOf exPlan (fun j => j) 10 8) .unit = .ok (.unit, tr) ∧ tr.sides = [(7, false)] :=
+    ⟨_, _, rfl, rfl, rfl⟩
+  have ha1 : inferM (fun _ => none) (prunePlan tr.sides (fun j => j) (fun _ => 0) exPlan)
+      (fun j => (reachable (prunePlan tr.sides (fun j => j) (fun _ => 0) exPlan)).getD j false) true = .ok exArr1 := by
+    rw [hs]; exact ex_infer1
+  obtain ⟨t', tr2, _, _, h3⟩ := antiDoS_driver (fun _ => none) exPlan exWit #[] (fun _ _ => none) (fun j => j)
+    (fun j => j + 100) (fun _ => 0) true (pruneWit exWit exArr exArr1) rfl (by decide) ex_infer 10
+    ⟨.one, .one, t⟩ hx .unit .unit tr .unit hrun ha1 (fun j bits _ _ h => h) (fun j k _ _ h => h)
+  obtain ⟨t'', tr2', _, _, _, h4', _⟩ := prune_idempotent_plan (fun _ => none) exPlan exWit #[] (fun _ _ => none)
+    (fun j => j) (fun j => j + 100) (fun _ => 0) (fun _ => 1)
+    (fun j => (reachable (prunePlan tr.sides (fun j => j) (fun _ => 0) exPlan)).getD j false) true
+    (pruneWit exWit exArr exArr1) rfl ex_infer 10 8 ⟨.one, .one, t⟩ hx .unit .unit tr .unit hrun ha1
+    (fun j hj => by have := reachable_lt _ hj; rwa [prunePlan_size] at this)
+    (fun j nd' hj hnd' => reachable_closed _ (wf_prunePlan _ _ _ _ rfl) hj hnd')
+    (fun j bits _ _ h => h)
+    (by rw [hs]; rfl)
+    (fun j hj => by have := reachable_sound _ hj; rwa [prunePlan_size] at this)
+    (fun j k _ _ h => h)
+  rw [hs] at h3 h4'
+  exact ⟨⟨tr2, h3⟩, ⟨tr2', h4'⟩⟩
+
 /-! ## (T) typed terms: the `Pruner` step -/
 
 /-- **Same output, same tracker record, idempotent** — on the typed terms the driver evaluates, all
@@ -179,25 +471,29 @@ theorem eval_prune_plan_original_types (ids : Nat → Nat) (cm : Nat → Nat) (e
   rw [h2]
   exact evalT_pruneTerm tr.sides x.2.2 _ v o tr hrun (fun _ hp => hp)
 
-/-! ## (A) abstract models (bridge to the plan level sampled, not proved) -/
+/-! ## (A) abstract models (each accompanied by a full plan-level theorem above) -/
 
 /-- **Same behaviour after re-typing** (`Prune.lean`).  If `t'` is `t` with arbitrary other types,
 witness values pruned to the new types (`pr`), jets and words unchanged, and case nodes possibly
 replaced by assertions hiding the branch *not taken on input `v`* (`ShrinkOn t' t v`), then a
 successful run of `t` on `v` with output `out` implies that `t'` maps the pruned input to the pruned
-output.  *Partial*: that the term elaborated from the pruned plan with its *re-inferred* arrows and
-`pruneV`-pruned witnesses is `ShrinkOn`-related to the term of the original plan is not proved
-(`types_shrink`, `witness_prune_defined` and `plan_pruning_is_term_pruning` are the ingredients; the
-driver runs the re-typed pruned plan on every sampled case). -/
+output.  *Partial* only in that it speaks about the abstract relation `ShrinkOn`; the statement
+for the plan-level pipeline (`prunePlan` + `inferM` + `pruneWit`, elaborated by `elabNode`) is the
+full theorem `eval_prune_retyping` above, proved directly by induction over the plan (it also gives
+the tracker record, which `ShrinkOn` does not speak about).  That the elaborated pair of terms is
+`ShrinkOn`-related is not stated separately. -/
 theorem eval_prune_retyping_partial {a' b' a b : Ty} {t' : Term a' b'} {t : Term a b} {v : Val}
     (h : ShrinkOn t' t v) (out : Val) (he : eval t v = some out) :
     eval t' (pr a' v) = some (pr b' out) :=
   eval_shrink h out he
 
 /-- **Prune succeeds when the run does, same output and record, pruning again changes nothing**
-(`PruneTrace.lean`, identity-labelled skeletons).  *Partial*: skeletons have no `disconnect` node
-and are not derived from plans by a proved translation; the typed-term statement above
-(`eval_prune_pruner_step`) covers every node kind. -/
+(`PruneTrace.lean`, identity-labelled skeletons).  *Partial*: skeletons have no `disconnect` node,
+no types, and are not derived from plans.  The plan-level statements are `eval_prune_pruner_step`
+/ `eval_prune_plan_original_types` (types kept, every node kind) and `prune_idempotent_plan`
+(re-inferred types, witness bits and reachable set included; it needs the identities of the first
+run pairwise distinct on the plan, because the identity roots of the re-typed program differ from
+those of the original and the second tracker record can only be compared through plan indices). -/
 theorem prune_idempotent_partial (s : PT.Sk) (v o : PT.Val) (tr : PT.Tr) (h : PT.eval s v = some (o, tr)) :
     ∃ p, PT.prune s v = some p ∧ PT.eval p v = some (o, tr) ∧ PT.prune p v = some p :=
   PT.prune_spec s v o tr h
@@ -205,9 +501,16 @@ theorem prune_idempotent_partial (s : PT.Sk) (v o : PT.Val) (tr : PT.Tr) (h : PT
 /-- **Anti-DoS** (`PruneTrace.lean`).  When identities are faithful (one identity, one sub-DAG:
 identity roots do not collide), the run of the pruned program records every node of the pruned
 program as executed and both sides of every remaining case node — including the case nodes kept
-with *neither* side recorded, which are shown to be unreachable.  *Partial* as above; the driver
-evaluates the same two conditions on its own run of every pruned plan (`antidos=`) and the harness
-compares with `evalTCOExpression(CHECK_ALL)`. -/
+with *neither* side recorded, which are shown to be unreachable.  *Partial*: skeletons, no
+`disconnect`.  The plan-level statements are `antiDoS_plan`, `antiDoS_driver` and `pipeline_antiDos`
+(every node kind; hypothesis: identity roots pairwise distinct on the plan, which is what the
+decoder enforces).  What neither covers: plans in which two *different* nodes carry the same
+identity root (the harness builds such programs without decoding them).  There the tracker merges
+the records of the two nodes while re-inference may give them different types, hence different
+identity roots in the pruned program; `IdsFaithful` of the skeleton model has no types and does not
+see this.  That case is sampled: the driver evaluates the conditions at identity-root granularity
+on its own run of every pruned plan (`antidos=`) and the harness compares with
+`evalTCOExpression(CHECK_ALL)`; libsimplicity itself is not modelled. -/
 theorem antiDoS_partial (s : PT.Sk) (hf : PT.IdsFaithful s) (v o : PT.Val) (tr : PT.Tr)
     (h : PT.eval s v = some (o, tr)) :
     PT.eval (PT.pruneBy tr.sides s) v = some (o, tr) ∧
